@@ -100,10 +100,54 @@ func seg(r *gen.Rand, tag string) string {
 	return tag + r.StringFrom(pathAlpha, r.Range(0, 12))
 }
 
+var acceptHeaders = []string{
+	"text/html;level=1;q=0, application/json",
+	"text/plain;format=flowed",
+	"text/plain;format=flowed;q=0.5, text/html;level=1",
+	"application/json;version=2;q=0, text/plain;format=flowed;charset=utf-8;q=0, */*;q=0.1",
+	"text/html;level=1;q=0",
+	"*/*",
+	"text/*;q=0.3, text/html;level=2;q=0, text/plain;format=fixed",
+	"application/json",
+	"text/html;level=1, text/plain;format=flowed;q=0",
+	"application/json;version=2, application/json;q=0.5",
+	"text/plain;charset=utf-8;format=fixed;q=0, text/html",
+}
+
+// decorate adds what real clients and proxies add: forwarding headers and Accept* headers.
+func decorate(r *gen.Rand, q *reqSpec) {
+	if r.Chance(1, 2) {
+		for _, h := range [][2]string{
+			{"X-Forwarded-Proto", gen.Pick(r, []string{"https", "http", "wss"})},
+			{"X-Forwarded-Ssl", "on"},
+			{"X-Url-Scheme", gen.Pick(r, []string{"https", "custom"})},
+			{"X-Forwarded-Host", gen.Pick(r, []string{"fwd.example.net", "shop.example.org:8443"})},
+			{"X-Forwarded-For", gen.Pick(r, []string{"192.0.2.1", "192.0.2.77, 198.51.100.9", "not-an-ip, 192.0.2.5"})},
+		} {
+			if r.Chance(1, 3) {
+				q.Hdr = append(q.Hdr, h)
+			}
+		}
+	}
+	if r.Chance(1, 2) {
+		q.Hdr = append(q.Hdr, [2]string{"Accept", gen.Pick(r, acceptHeaders)})
+		if r.Chance(1, 3) {
+			q.Hdr = append(q.Hdr, [2]string{"Accept-Language", gen.Pick(r, []string{"de-CH, en;q=0.5", "fr;q=0, en", "*"})})
+		}
+		if r.Chance(1, 3) {
+			q.Hdr = append(q.Hdr, [2]string{"Accept-Charset", gen.Pick(r, []string{"iso-8859-1;q=0, utf-8", "utf-8;q=0.3"})})
+		}
+		if r.Chance(1, 4) {
+			q.Hdr = append(q.Hdr, [2]string{"Accept-Encoding", gen.Pick(r, []string{"br;q=0, gzip", "identity"})})
+		}
+	}
+}
+
 // genHistoryReq draws one history request. tag is unique per request of the case ("h3x"), and
 // is embedded in every value the request carries.
 func genHistoryReq(r *gen.Rand, tag string, custom bool) wreq {
 	q := &reqSpec{Host: gen.Pick(r, hosts)}
+	decorate(r.Split(), q)
 	class := pickCookieClass(r)
 	if class != ckNone {
 		q.Cookie = genCookie(r, tag, class, flashAlpha)
@@ -349,6 +393,7 @@ func genProbeX(r *gen.Rand, forceClass string, xsrcSel string) probeSpec {
 	const tag = "PRB"
 	ps := probeSpec{Route: r.Intn(len(probeRoutes))}
 	q := &reqSpec{Host: gen.Pick(r, hosts), Method: gen.Pick(r, []string{"GET", "GET", "POST", "PUT"})}
+	decorate(r.Split(), q)
 	if xsrcSel == "?" {
 		xsrcSel = ""
 		if r.Bool() {
@@ -606,6 +651,7 @@ func genIsoCase(r *gen.Rand) isoCase {
 
 func genIsoCase0(r *gen.Rand) isoCase {
 	ic := isoCase{Cfg: isoCfg{Custom: r.Chance(1, 3), PassLocals: r.Bool(), Immutable: r.Chance(1, 4), CaseSens: r.Chance(1, 4), Strict: r.Chance(1, 4)}}
+	ic.Cfg.widen(r)
 	n := r.Range(1, 12)
 	for i := 0; i < n; i++ {
 		ic.History = append(ic.History, genHistoryReq(r.Split(), "h"+strconv.Itoa(i)+"x", ic.Cfg.Custom))
@@ -810,6 +856,7 @@ func runIsolation(e *ev.Env) {
 	e.Cases("flash", e.N(600, 15000), func(c *ev.Case) {
 		r := c.R
 		ic := isoCase{Cfg: isoCfg{Custom: r.Chance(1, 3), PassLocals: r.Bool(), Immutable: r.Chance(1, 4)}}
+		ic.Cfg.widen(r)
 		n := r.Range(1, 6)
 		for i := 0; i < n; i++ {
 			tag := "h" + strconv.Itoa(i) + "x"
@@ -829,6 +876,7 @@ func runIsolation(e *ev.Env) {
 	e.Cases("halfbind", e.N(300, 8000), func(c *ev.Case) {
 		r := c.R
 		ic := isoCase{Cfg: isoCfg{Custom: r.Chance(1, 3), PassLocals: r.Bool(), Immutable: r.Bool()}}
+		ic.Cfg.widen(r)
 		n := r.Range(0, 4)
 		for i := 0; i < n; i++ {
 			ic.History = append(ic.History, genHistoryReq(r.Split(), "h"+strconv.Itoa(i)+"x", ic.Cfg.Custom))
@@ -851,6 +899,7 @@ func runIsolation(e *ev.Env) {
 	e.Cases("xsrc", e.N(400, 10000), func(c *ev.Case) {
 		r := c.R
 		ic := isoCase{Cfg: isoCfg{Custom: r.Chance(1, 3), PassLocals: r.Bool(), Immutable: r.Bool()}}
+		ic.Cfg.widen(r)
 		pair := c.R.Intn(len(xSources) * len(xSources))
 		hsrc, psrc := xSources[pair/len(xSources)], xSources[pair%len(xSources)]
 		for i := r.Intn(3); i > 0; i-- {
@@ -867,6 +916,7 @@ func runIsolation(e *ev.Env) {
 	e.Cases("redirfail", e.N(300, 8000), func(c *ev.Case) {
 		r := c.R
 		ic := isoCase{Cfg: isoCfg{Custom: r.Chance(1, 3), PassLocals: r.Bool(), Immutable: r.Chance(1, 4)}}
+		ic.Cfg.widen(r)
 		for i := r.Intn(3); i > 0; i-- {
 			ic.History = append(ic.History, genHistoryReq(r.Split(), "h"+strconv.Itoa(len(ic.History))+"x", ic.Cfg.Custom))
 		}
@@ -892,6 +942,7 @@ func runIsolation(e *ev.Env) {
 	e.Cases("sendfile", e.N(300, 6000), func(c *ev.Case) {
 		r := c.R
 		ic := isoCase{Cfg: isoCfg{Custom: r.Chance(1, 3), Immutable: r.Chance(1, 4)}}
+		ic.Cfg.widen(r)
 		pv := r.Intn(nSendFileVariants)
 		for i := r.Range(1, 4); i > 0; i-- {
 			tag := "h" + strconv.Itoa(len(ic.History)) + "x"
@@ -912,9 +963,72 @@ func runIsolation(e *ev.Env) {
 		ic.Probe = genFileProbe(r.Split(), pv)
 		judgeIso(e, c, ic)
 	})
+	// directed family: same Host as an earlier request that looked at BaseURL(), other scheme /
+	// forwarding headers
+	e.Cases("origin", e.N(300, 8000), func(c *ev.Case) {
+		r := c.R
+		ic := isoCase{Cfg: isoCfg{Custom: r.Chance(1, 3), PassLocals: r.Bool(), Immutable: r.Chance(1, 4)}}
+		ic.Cfg.widen(r)
+		host := gen.Pick(r, hosts)
+		for i := r.Range(1, 3); i > 0; i-- {
+			tag := "h" + strconv.Itoa(len(ic.History)) + "x"
+			q := &reqSpec{Host: host, Target: gen.Pick(r, []string{"/base", "/locals/" + tag, "/redir/" + tag + "?n=1", "/nothing/" + tag})}
+			decorate(r.Split(), q)
+			ic.History = append(ic.History, wreq{Kind: "origin", Raw: q.raw(), Cookie: ckNone})
+		}
+		ps := genProbeX(r.Split(), "", "")
+		// same Host header as the history
+		ps.Raw = bytes.Replace(ps.Raw, hostLineOf(ps.Raw), []byte("Host: "+host+"\r\n"), 1)
+		ic.Probe = ps
+		judgeIso(e, c, ic)
+	})
+	// directed family: requests that match no route at all (no catch-all middleware) and still
+	// leave state: a flash cookie, an ErrorHandler that binds / sets view bindings / prepares a
+	// redirect
+	e.Cases("unrouted", e.N(300, 8000), func(c *ev.Case) {
+		r := c.R
+		ic := isoCase{Cfg: isoCfg{Custom: r.Chance(1, 3), PassLocals: r.Bool(), Immutable: r.Chance(1, 4)}}
+		ic.Cfg.widen(r)
+		ic.Cfg.NoMW = true
+		for i := r.Intn(3); i > 0; i-- {
+			ic.History = append(ic.History, genHistoryReq(r.Split(), "h"+strconv.Itoa(len(ic.History))+"x", ic.Cfg.Custom))
+		}
+		for i := r.Range(1, 3); i > 0; i-- {
+			tag := "h" + strconv.Itoa(len(ic.History)) + "x"
+			q := &reqSpec{Host: gen.Pick(r, hosts)}
+			decorate(r.Split(), q)
+			kind := "404"
+			switch r.Intn(3) {
+			case 0:
+				q.Target = "/nothing/" + tag + "?name=" + tag + "qn&a=x"
+			case 1:
+				q.Method, q.Target, kind = "POST", "/getonly?name="+tag+"qn", "405"
+				q.Body = []byte{}
+			default:
+				q.Method, q.Target = "DELETE", "/private/"+tag
+			}
+			cl := gen.Pick(r, []string{ckValid, ckValid, ckNone, ckPartial})
+			if cl != ckNone {
+				q.Cookie = genCookie(r, tag, cl, flashAlpha)
+			}
+			ic.History = append(ic.History, wreq{Kind: "unrouted-" + kind, Raw: q.raw(), Cookie: cl})
+		}
+		ic.Probe = genProbeX(r.Split(), gen.Pick(r, []string{ckNone, ckNone, ckNone, ckPartial, ckTruncated}), "")
+		judgeIso(e, c, ic)
+	})
 	if e.Only == "" {
 		e.Note("nontrivial_rule", "probe ran on a context object that served an earlier request of the same app (pointer logged by the entry middleware / ErrorHandler)")
 	}
+}
+
+// hostLineOf returns the "Host: …\r\n" line of a raw request.
+func hostLineOf(raw []byte) []byte {
+	i := bytes.Index(raw, []byte("\r\nHost: "))
+	if i < 0 {
+		return nil
+	}
+	j := bytes.Index(raw[i+2:], []byte("\r\n"))
+	return raw[i+2 : i+2+j+2]
 }
 
 func kindsOf(h []wreq) []string {
